@@ -13,7 +13,7 @@ INFO = {
         '0 < t <= 1e-2, analytic facts M1, M2, M5, M6) and used at each call site after its preconditions (t = kappa/c_iq <= 1e-2, |x| <= 600) are '
         'discharged for that call.'),
     'bounds': {
-        'quick': 'PL/BT: shapes (1,1),(2,1) x 3 orders, (1,1,1) x 13 orders, (2,2) x 2; TM: (1,1) x 3 orders, (2,1) x 3; limit_sigma on/off; default and uninterpreted gamma >= 0',
+        'quick': 'PL/BT: shapes (1,1),(2,1) x 3 orders, (1,1,1) x 13 orders, (2,2) x 2; TM: (1,1) x 3 orders, (2,1) x 3; limit_sigma on/off; default and uninterpreted gamma >= 0; PL/BT also with a symbolic per-call tau (0 included) on a model with its own tau, limit_sigma on/off',
         'thorough': '+ (1,1,1,1) x 75 orders, (1,2,1), (2,1,2) for PL/BT; TM (1,1,1) (partial: all 13; full: strict)',
     },
     'outside': ['IEEE rounding (the bound is decided over the reals)', 'Thurstone-Mosteller with a draw margin t = kappa/c_iq above 1e-2 (i.e. kappa > 0.014*beta): '
